@@ -140,6 +140,62 @@ def nontrivial(op, out):
     return out.startswith('ok') and any(t in op for t in ('22', '27', '5c'))
 
 
+# single-valued keys whose value is consumed by *another* unit: (type of the unit that has the key, its lines with {} for the
+# spelling, the referring container's line, what the referrer's command line must contain for the string s)
+HANDED_ON = [
+    ('image', 'Image=quay.io/x/y\nImageTag={}', 'Image=n.image', lambda s, av: av[-1] == s, 'the image name (last argument) is the ImageTag'),
+    ('build', 'File=/opt/Containerfile\nImageTag={}', 'Image=n.build', lambda s, av: av[-1] == s, 'the image name (last argument) is the build\'s ImageTag'),
+    ('volume', 'VolumeName={}', 'Image=localhost/img\nVolume=n.volume:/d', lambda s, av: any(av[i] == '-v' and av[i + 1] == s + ':/d' for i in range(len(av) - 1)), '-v <VolumeName>:/d'),
+    ('network', 'NetworkName={}', 'Image=localhost/img\nNetwork=n.network', lambda s, av: any(av[i] == '--network' and av[i + 1] == s for i in range(len(av) - 1)), '--network <NetworkName>'),
+    ('container', 'Image=localhost/img\nContainerName={}', 'Image=localhost/img\nNetwork=n.container', lambda s, av: any(av[i] == '--network' and av[i + 1] == 'container:' + s for i in range(len(av) - 1)), '--network container:<ContainerName>'),
+]
+
+
+def call_sites(ctx, sel):
+    """the observation point "the option value in the generated ExecStart": every single-valued key of every unit type that
+    is passed on as an option value, written with a documented spelling, arrives as the string — in the unit's own command
+    and, for the naming keys, in the command of a unit that refers to it"""
+    from props import c02
+    import canon, gen_units as G
+    res, rnd = ctx.res, ctx.rnd
+    if not sel:
+        return
+    ops, metas = [], []
+    for ty in G.TYPES:
+        for key, kind, spec in c02.key_specs(ty):
+            if kind != 'str':
+                continue
+            for s, sp in rnd.sample(sel, min(len(sel), 6 if ctx.thorough else 2)):
+                text = '[' + G.SEC[ty] + ']\n' + '\n'.join(G.BASE[ty] + [f'{key}={sp}']) + '\n'
+                ops.append(f'convert\t0\t0\t{hx("/q/a." + ty)}\t{hx(text)}')
+                metas.append((f'{key}= of a .{ty}', s, sp, text, lambda s, av, spec=spec: any(av[i] == spec and av[i + 1] == s for i in range(len(av) - 1)), f'{spec} <the string>'))
+    for ty, lines, referrer, ok, what in HANDED_ON:
+        # a ContainerName with a specifier other than %N has no resolved name by design (get_container_resource_name): the
+        # referrer is rejected, which is outside this statement
+        pool = [p for p in sel if '%' not in p[0]] if ty == 'container' else sel
+        for s, sp in rnd.sample(pool, min(len(pool), 40 if ctx.thorough else 12)):
+            t0 = '[' + G.SEC[ty] + ']\n' + lines.format(sp) + '\n'
+            t1 = '[Container]\n' + referrer + '\n'
+            ops.append(f'convert\t0\t0,1\t{hx("/q/n." + ty)}\t{hx(t0)}\t{hx("/q/r.container")}\t{hx(t1)}')
+            metas.append((f'{lines.split("=")[-2].split(chr(10))[-1]}= of a .{ty}, used by a container that refers to it', s, sp, t0 + '--- r.container\n' + t1, ok, what))
+    outs = ctx.impl(ops)
+    # the argument vector of the last converted unit of each op (for a pod: of its `pod create` line)
+    avs = c02.argv(ctx, [('ok ' + a[3:].split(' | ')[-1]) if a.startswith('ok ') else a for a in outs])
+    for (where, s, sp, text, ok, what), op, a, av in zip(metas, ops, outs, avs):
+        res.oracle_evals += 1
+        if av is None:
+            r = canon.parse_convert(a)
+            if r and r[-1][0] == 'err' and r[-1][1] in ('UnsupportedValueForKey', 'InvalidRemapUsers', 'InvalidSubnet', 'InvalidPortFormat'):
+                continue
+            res.oracle_failures.append(dict(op=op, input=dict(where=where, string=s, spelling=sp, units=text), impl_output=core.dec_line(a)[:500],
+                                            oracle_expectation='the unit converts (a documented spelling of a plain string)'))
+            continue
+        if not ok(s, av):
+            res.oracle_failures.append(dict(op=op, input=dict(where=where, string=s, spelling=sp, units=text), impl_output=str(av),
+                                            oracle_expectation=f'{where}: {what}, for the string {s!r} spelled {sp!r}'))
+    res.notes.append(f'call sites: {len(metas)} conversions — every string key of every type in its own command, and the naming keys ImageTag/VolumeName/NetworkName/ContainerName in the command of a referring unit')
+
+
 def oracle(ctx):
     res = ctx.res
     pairs = getattr(ctx, '_c04', None)
@@ -186,5 +242,6 @@ def oracle(ctx):
         if not ok:
             res.oracle_failures.append(dict(op=op, input=dict(spelling=sp), impl_output=core.dec_line(a),
                                             oracle_expectation=f'the escape in {sp!r} is valid and denotes ' + (repr(want_exact) if want_exact is not None else 'one character (or byte)')))
+    call_sites(ctx, [p for p in sel if p[0] and p[0] == p[0].strip() and not any(ord(c) < 0x20 for c in p[0])])
     res.samples.append(dict(kind='oracle-case', string=pairs[len(pairs) // 2][0], spelling=pairs[len(pairs) // 2][1]))
     ctx.log(f'oracle: {res.oracle_evals} evaluations, {len(res.oracle_failures)} failures')
